@@ -61,6 +61,51 @@ CLASSES = {
 }
 
 
+
+def _inline_data_views(loop: ast.For) -> ast.For:
+    """`v = self.data[i]` / `p = self.data[i][j]` inside the profile loops: a basic-index view of the cube, never
+    rebound - every use (reads, and writes `v[j] = ...` which go through to the cube) is replaced by the indexed cube"""
+    import copy
+    loop = copy.deepcopy(loop)
+    views: dict[str, ast.AST] = {}
+
+    def rooted(e):
+        while isinstance(e, ast.Subscript):
+            e = e.value
+        return ast.unparse(e) == "self.data"
+
+    counts: dict[str, int] = {}
+    for n in ast.walk(loop):
+        if isinstance(n, ast.Assign):
+            for t in n.targets:
+                if isinstance(t, ast.Name):
+                    counts[t.id] = counts.get(t.id, 0) + 1
+    for n in ast.walk(loop):
+        if (isinstance(n, ast.Assign) and len(n.targets) == 1 and isinstance(n.targets[0], ast.Name)
+                and counts.get(n.targets[0].id) == 1 and isinstance(n.value, ast.Subscript) and rooted(n.value)):
+            views[n.targets[0].id] = n.value
+    if not views:
+        return loop
+
+    class Sub(ast.NodeTransformer):
+        def visit_Name(self, node):
+            if node.id in views and isinstance(node.ctx, ast.Load):
+                return copy.deepcopy(views[node.id])
+            return node
+
+    class Drop(ast.NodeTransformer):
+        def visit_Assign(self, node):
+            if len(node.targets) == 1 and isinstance(node.targets[0], ast.Name) and node.targets[0].id in views:
+                return None
+            return self.generic_visit(node)
+
+    loop = Drop().visit(loop)
+    for _ in range(3):
+        views = {k: Sub().visit(copy.deepcopy(v)) for k, v in views.items()}
+    loop = Sub().visit(loop)
+    return ast.fix_missing_locations(loop)
+
+
 class Method:
     def __init__(self, cname: str, spec: dict, fn: ast.FunctionDef, returns: dict[str, str]):
         self.cname, self.spec, self.fn = cname, spec, fn
@@ -323,6 +368,8 @@ class Method:
             return (ind + f"let {m} : {self.types[m]} := {st.iter.id}.foldl (fun {m} {v} =>\n" + body + f") {m}\n"
                     + self.block(rest, ind, tail))
         # for i in range(A): for j in range(B): self.data[i][j] = np.roll(self.data[i][j], k, axis=0)
+        if isinstance(st.target, ast.Name) and any(isinstance(b, ast.For) for b in st.body):
+            st = _inline_data_views(st)
         if isinstance(st.target, ast.Name) and len(st.body) == 1 and isinstance(st.body[0], ast.For):
             inner = st.body[0]
             i, j = st.target.id, inner.target.id if isinstance(inner.target, ast.Name) else None
